@@ -3,6 +3,8 @@ import copy
 import itertools
 import math
 
+import sys
+
 import numpy as np
 
 from .. import common, gen_all, gen_formulas, curves, fits
@@ -257,7 +259,7 @@ def check(run):
 def replay(rec):
     pl = rec.get("payload") or {}
     if pl.get("kind") != "cfg":
-        return True
+        return common.replay_by_rerun(sys.modules[__name__], rec)
 
     class R:
         bad = False
